@@ -126,8 +126,8 @@ def initM {Out : Type} : MState Out := { heap := [], cache := [] }
 def freeBody (sites : List MemoSite) (k : Nat) (e : Read → Val) (x : Args) : List Val × Args :=
   ((siteAt sites k).reads.map e, x)
 
-/-- public attributes (settable by the user): no leading underscore -/
-def isPublic (a : String) : Bool := !(a.startsWith "_")
+/-- attributes the user can set (generated list: no leading underscore) -/
+def isPublic (a : String) : Bool := publicAttrs.contains a
 
 /-- the static condition: no read goes through a stored lambda, and a memoised body reads
     only attributes that are in its key or that the public API cannot change -/
@@ -136,6 +136,10 @@ def siteOK (pub : String → Bool) (s : MemoSite) : Bool :=
   (!s.cached || s.reads.all (fun r => s.keyAttrs.contains r.attr || !pub r.attr))
 
 def copyOK (c : CopySite) : Bool := c.kind != .alias
+
+/-- index of a method of a class in a table (the table's length if absent) -/
+def memoIdx (sites : List MemoSite) (cls method : String) : Nat :=
+  sites.findIdx (fun s => s.cls == cls && s.method == method)
 
 /-! ## (b) numpy arrays -/
 
@@ -381,7 +385,8 @@ def stepL (c : Ctx) (ls : List LObj) : AOp → Except SErr (List LObj)
     | some a =>
       let ns := evalShape c sh
       if prodN ns ≠ prodN a.shape then .error (.err .sizeMismatch)
-      else .ok (ls ++ [{ a with shape := ns }])
+      -- a reshape of a read-only array is writeable iff numpy had to copy: not relied upon
+      else .ok (ls ++ [{ a with shape := ns, own := a.own && !a.ro }])
   | .setShape tgt sh =>
     match ls[tgt]? with
     | none => .error (.err .badRef)
@@ -429,9 +434,8 @@ structure SymObj where
   deriving DecidableEq, Repr
 
 def isOneItem : ShapeItem → Bool
-  | .dim (.lit 1) => true
-  | .rep (.lit 1) _ => true
-  | _ => false
+  | .dim d => d == .lit 1
+  | .rep d _ => d == .lit 1
 
 def dropOnesS (l : List ShapeItem) : List ShapeItem := l.filter (fun it => !isOneItem it)
 
@@ -460,7 +464,7 @@ def symOfShapeE : ShapeE → Option SymShape
 def stepS (rank : Nat) (ss : List SymObj) : AOp → Option (List SymObj)
   | .reshape src sh =>
     match ss[src]?, symOfShapeE sh with
-    | some a, some s => some (ss ++ [{ a with shape := s }])
+    | some a, some s => some (ss ++ [{ a with shape := s, own := a.own && !a.ro }])
     | _, _ => none
   | .setShape tgt sh =>
     match ss[tgt]? with
@@ -490,6 +494,12 @@ def runS (rank : Nat) (ss : List SymObj) : List AOp → Option (List SymObj)
     match stepS rank ss op with
     | none => none
     | some ss' => runS rank ss' ops
+
+def emptyArraySite : ArraySite := { file := "", func := "", param := "", line := 0, rank := 0, ops := [] }
+
+/-- the array site of function `func` on parameter `param` for arrays of rank `rank` -/
+def arraySiteOf (sites : List ArraySite) (func param : String) (rank : Nat) : ArraySite :=
+  (sites.find? (fun s => s.func == func && s.param == param && s.rank == rank)).getD emptyArraySite
 
 def siteSafe (s : ArraySite) : Bool :=
   (runS s.rank [{ shape := .input, own := false, ro := false }] s.ops).isSome
